@@ -326,11 +326,13 @@ struct World<T: PairT> {
     slots: Vec<T>,
     ghost: Vec<Vec<(i64, i64)>>,
     addonly: Vec<bool>,
+    /// which of clone / clone_from a Clone step uses (histories with a Clone step run with both)
+    parity: usize,
 }
 
 impl<T: PairT> World<T> {
     fn new(k: usize) -> Self {
-        World { slots: (0..k).map(|i| if i % 2 == 0 { T::new() } else { T::default_() }).collect(), ghost: vec![vec![]; k], addonly: vec![true; k] }
+        World { slots: (0..k).map(|i| if i % 2 == 0 { T::new() } else { T::default_() }).collect(), ghost: vec![vec![]; k], addonly: vec![true; k], parity: 0 }
     }
 }
 
@@ -370,7 +372,7 @@ fn apply<T: PairT>(w: &mut World<T>, op: &POp, e: &PairEmb, swap: bool) {
         POp::Clone(d, s) => {
             // Clone::clone / Clone::clone_from alternately: the same step of the specification
             let src = w.slots[s].clone();
-            if (w.ghost[d].len() + w.ghost[s].len()) % 2 == 1 {
+            if (w.ghost[d].len() + w.ghost[s].len() + w.parity) % 2 == 1 {
                 w.slots[d].clone_from(&src);
             } else {
                 w.slots[d] = src;
@@ -724,11 +726,12 @@ fn tags(fam: &str, acc: &str, sp: &PSlot, exp_nan: bool, addonly: bool) -> Vec<&
     t
 }
 
-fn replay_one<T: PairT>(h: &Value, ops: &[POp], specs: &[PSlot], e: &PairEmb, want: &PWant, rep: &mut Report) {
+fn replay_one<T: PairT>(h: &Value, ops: &[POp], specs: &[PSlot], e: &PairEmb, want: &PWant, rep: &mut Report, parity: usize) {
     let k = specs.len();
     let fam = want.family.as_str();
     rep.replays += 1;
     let mut w = World::<T>::new(k);
+    w.parity = parity;
     let has_ckpt = ops.iter().any(|o| matches!(o, POp::Ckpt(_)));
     for (step, op) in ops.iter().enumerate() {
         if let (true, POp::Merge(d, s)) = (want.is("C11"), op) {
@@ -799,7 +802,7 @@ fn replay_one<T: PairT>(h: &Value, ops: &[POp], specs: &[PSlot], e: &PairEmb, wa
                 }
                 t
             } else {
-                World { slots: w.slots.clone(), ghost: w.ghost.clone(), addonly: w.addonly.clone() }
+                World { slots: w.slots.clone(), ghost: w.ghost.clone(), addonly: w.addonly.clone(), parity: w.parity }
             };
             for s in 0..k {
                 let mut obs = Vec::new();
@@ -839,6 +842,7 @@ fn replay_one<T: PairT>(h: &Value, ops: &[POp], specs: &[PSlot], e: &PairEmb, wa
     }
     if want.is("C18") && has_ckpt {
         let mut w1 = World::<T>::new(k);
+        w1.parity = parity;
         for (step, op) in ops.iter().enumerate() {
             if let POp::Ckpt(s) = op {
                 let before = obs_bits(&w1.slots[*s]);
@@ -904,9 +908,12 @@ fn run_type<T: PairT>(h: &Value, ops: &[POp], specs: &[PSlot], want: &PWant, rep
             Some((o, s)) => (o, s),
             None => (ops, specs),
         };
-        let r = std::panic::catch_unwind(std::panic::AssertUnwindSafe(|| replay_one::<T>(h, ops, specs, e, want, &mut *rep)));
-        if r.is_err() {
-            viol::<T>(rep, &want.prop, &want.family, e, h, 0, "panic", "the code under test panicked (new / add / merge / clone / serde)".into(), json!({}));
+        let parities: &[usize] = if ops.iter().any(|o| matches!(o, POp::Clone(_, _))) { &[0, 1] } else { &[0] };
+        for &parity in parities {
+            let r = std::panic::catch_unwind(std::panic::AssertUnwindSafe(|| replay_one::<T>(h, ops, specs, e, want, &mut *rep, parity)));
+            if r.is_err() {
+                viol::<T>(rep, &want.prop, &want.family, e, h, 0, "panic", "the code under test panicked (new / add / merge / clone / serde)".into(), json!({}));
+            }
         }
     }
 }
